@@ -7,6 +7,7 @@ import (
 	"crypto/x509"
 	"crypto/x509/pkix"
 	"encoding/binary"
+	"encoding/hex"
 	"fmt"
 	"math/big"
 	"net/url"
@@ -339,6 +340,76 @@ func c13wedge() {
 	enc.Encode(map[string]any{"name": "wedge", "first_delivered": got5, "second_delivered": got6, "rcv_locked": locked, "second_delivered_after_unlock": after})
 }
 
+// c13progress: Receive is fed frames after every error; every call has to return (the channel must not wedge on a
+// lock). Streams: intermediate chunks whose data exceeds MaxMessageSize within MaxChunkCount, multi-chunk responses for
+// request ids nobody waits for (client) or with a registered handler, aborts, over-limit counts, then a sentinel.
+func c13progress(r *rng.R, n int) {
+	for i := 0; i < n; i++ {
+		for _, kind := range []string{"client", "server"} {
+			const mc, ms = 6, 100
+			peer, conn := pair(defaultAck(8192, mc, ms))
+			sc, _ := uasc.VerifNewChannel(conn, noneCfg(), kind == "server", make(chan error, 64))
+			v := uasc.VerifChannel{S: sc}
+			v.AddInstance(noneAlgo(), chanID, tokID, 0, time.Now(), time.Hour)
+			if kind == "client" && r.Bool() {
+				v.RegisterHandler(2)
+			}
+			seq := uint32(r.Intn(1000))
+			var frames []wchunk
+			add := func(t byte, req uint32, d []byte) {
+				seq++
+				frames = append(frames, wchunk{int(t), seq, req, hx(d)})
+			}
+			for k := 0; k < r.Range(2, 5); k++ {
+				switch r.Intn(5) {
+				case 0: // more data than MaxMessageSize in intermediate chunks, fewer chunks than MaxChunkCount, then more
+					add('C', 1, r.Bytes(70))
+					add('C', 1, r.Bytes(70))
+					add('C', 1, r.Bytes(5))
+					add('F', 1, r.Bytes(5))
+				case 1: // multi-chunk response
+					b := svcBody(9, r.Bytes(20))
+					add('C', 2, b[:10])
+					add('F', 2, b[10:])
+				case 2: // too many chunks
+					for j := 0; j < mc+2; j++ {
+						add('C', 3, []byte{1})
+					}
+				case 3:
+					add('C', 4, []byte{1, 2})
+					ab, _ := (&uasc.MessageAbort{ErrorCode: 0x80010000, Reason: "x"}).Encode()
+					add('A', 4, ab)
+				default:
+					add('F', 5, r.Bytes(r.Intn(8))) // does not decode
+				}
+			}
+			sent := svcBody(77, []byte("sentinel"))
+			add('F', 99, sent)
+			go func() {
+				for _, c := range frames {
+					d, _ := hex.DecodeString(c.Data)
+					peer.Write(symChunk("MSG", byte(c.T), chanID, tokID, c.Seq, c.Req, d))
+				}
+			}()
+			var outs []out
+			sentinel := false
+			for j := 0; j < len(frames)+2 && !sentinel; j++ {
+				o := recvOne(sc, conn, 2*time.Second)
+				outs = append(outs, o)
+				if o.K == "deliver" && o.Req == 99 {
+					sentinel = true
+				}
+				if o.K == "stuck" || o.K == "timeout" || o.K == "panic" || o.K == "eof" {
+					break
+				}
+			}
+			enc.Encode(map[string]any{"name": "progress", "kind": kind, "chunks": frames, "outs": outs, "sentinel": sentinel})
+			peer.Close()
+			conn.Close()
+		}
+	}
+}
+
 func c13(seed uint64, n int, replay string) {
 	r := rng.New(seed)
 	tp := func() toyParams {
@@ -368,6 +439,7 @@ func c13(seed uint64, n int, replay string) {
 			}
 		}
 	}
+	c13progress(r, 6*n+6)
 	c13ids(2000)
 	c13wedge()
 }
